@@ -654,7 +654,14 @@ static RunResult exec_table(const Plan &p)
 			};
 			for (auto &x : f) {
 				size_t at = out.find(std::string("\n") + x.label);
-				if (at == Bytes::npos) { res.fail("TOOL", std::string("INFO-missing-") + x.label, "mtbl_info output lacks '" + std::string(x.label) + "'"); break; }
+				// a line the tool does not print (or words differently) says nothing false: not judged, but counted
+				if (at == Bytes::npos) {
+					std::string lab = x.label;
+					for (auto &ch : lab) if (!isalnum((unsigned char)ch)) ch = '-';
+					res.unjudged["mtbl_info-has-no-line-" + lab]++;
+					continue;
+				}
+				res.probes["mtbl_info-line-checked"]++;
 				size_t vs = at + 1 + strlen(x.label);
 				while (vs < out.size() && out[vs] == ' ') vs++;
 				size_t ve = vs;
